@@ -36,4 +36,8 @@ def check(model, tier):
     triviality.r05_2_noop_predicates_agree(ctx, rule="R11.5")
     optional_rules.r_optional_truthiness(ctx, "R11.6", {"limit", "stop", "max_rows"}, ("sql/", "_operations/_slice.py"))
     sqlplace.r_sort_mapping(ctx, "R11.6")
+    from ..rules import merge as _merge
+
+    _merge.r05_3_merged_constructors(ctx, rule="R11.7")
+    _merge.r05_4_then(ctx, rule="R11.8")
     return run
